@@ -102,4 +102,33 @@ defprog! {
    }
 }
 
-pub fn all() -> Vec<ProgramDef> { vec![agg_over_tc::def(), agg_over_lattice::def(), strata_chain::def()] }
+// a recursive stratum whose relation is negated / aggregated by the strata that follow it
+// *immediately* (no positive stratum in between): a stratum must never be observed half-done by a
+// later one, also not when a deadline strikes inside it
+defprog! {
+   name: reach_then_negate;
+   timeouts: yes;
+   positive: false;
+   tags: ["c02", "c05", "c13", "c14", "c20", "graph", "agg"];
+   rels: {
+      relation edge(u32, u32) [input];
+      relation node(u32) [input];
+      relation start(u32) [input];
+      relation reach(u32) [];
+      relation unreached(u32) [];
+      relation furthest(u32) [];
+      relation frontier(u32, u32) [];
+      relation closed(u32) [];
+   }
+   gens: [("chain", gens::chain), ("random", gens::random), ("diamond", gens::diamond), ("dense", gens::dense)];
+   rules: {
+      reach(x) <-- start(x);
+      reach(y) <-- reach(x), edge(x, y);
+      unreached(x) <-- node(x), !reach(x);
+      furthest(m) <-- agg m = max(x) in reach(x);
+      frontier(x, y) <-- reach(x), edge(x, y), !reach(y);
+      closed(x) <-- reach(x), !frontier(x, _);
+   }
+}
+
+pub fn all() -> Vec<ProgramDef> { vec![agg_over_tc::def(), agg_over_lattice::def(), strata_chain::def(), reach_then_negate::def()] }
